@@ -2,7 +2,7 @@
    (models: model/C09*.v, proofs: proofs/C09_*.v). *)
 From Coq Require Import String ZArith QArith List Bool.
 Require Import WV.model.C09Line WV.model.C09Spec WV.model.C09Judge WV.model.C09Align.
-Require Import WV.proofs.C09_pango WV.proofs.C09_sfl WV.proofs.C09_align.
+Require Import WV.proofs.C09_pango WV.proofs.C09_greedy WV.proofs.C09_sfl WV.proofs.C09_align.
 Import ListNotations.
 Open Scope Q_scope.
 
@@ -35,6 +35,60 @@ Theorem C09_first_fit_is_greedy fs ins (ws : list text) (w : Q) :
       else ((wlen ws k + 1)%nat, Some (wlen ws k + 1)%nat, inject_Z (Z.of_nat (wlen ws k)) * fs).
 Proof. exact (G_words fs ins ws w). Qed.
 Print Assumptions C09_first_fit_is_greedy.
+
+(* first_line_is_greedy, white-space: normal | pre-line | pre-wrap.  For every text satisfying the decidable guard
+   `greedy_guard` (model/C09Spec.v: ordinary text = non-empty words of letters separated by single spaces; a
+   wrapping white-space value; font size > 0; available width < 2^21 px; and either words may not be broken -
+   no break-all, no overflow-wrap at a line start - or the first word fits), for every width (negative ones
+   included, avail = max(0, width)), font size, is_line_start, minimum, overflow-wrap, hyphens value:
+   the model of split_first_line instantiated with the reference breaker G returns the k first words, where
+   the k+1 first words do not fit and the k first words fit unless k = 1 (one unbreakable word); the line, the
+   white space skipped after it and the rest are the text (nothing lost, nothing duplicated); the resume index is
+   the end of the skipped white space (None when the line is the whole text); the reported length and width are
+   those of the line (under pre-wrap the preserved space hangs at the end of the line and is part of it).
+   The shortcut of step 1, the look-ahead of step 3 and steps 4-5 never change the answer. *)
+Theorem C09_first_line_is_greedy st (t : text) (mw : Q) (ils mini : bool) :
+  greedy_guard st t mw ils mini = true ->
+  let ws := words_of t in let n := length ws in let fs := st_fs st in let collapse := space_collapse (st_ws st) in
+  exists k, (1 <= k <= n)%nat /\
+    ((2 <= k)%nat -> fits_chars fs (avail mw) (wlen ws k)) /\
+    ((k < n)%nat -> ~ fits_chars fs (avail mw) (wlen ws (k + 1))) /\
+    let line := line_of collapse ws k in let skipped := skipped_of collapse ws k in let rest := rest_of ws k in
+    t = (line ++ skipped ++ rest)%list /\
+    forallb is_sp skipped = true /\
+    sfl_model st t (Some mw) ils mini =
+      Out line (nbytes line) (if (k =? n)%nat then None else Some (nbytes (line ++ skipped)%list))
+          (inject_Z (visw line) * fs).
+Proof. exact (first_line_is_greedy st t mw ils mini). Qed.
+Print Assumptions C09_first_line_is_greedy.
+
+(* lines_cover_text (the inline-level conservation C01 relies on): under the guard for every line (ordinary text,
+   wrapping white-space, font size > 0, width < 2^21, words may not be broken or every word fits), calling the model
+   of split_first_line again from each resume point terminates - the remaining text gets strictly shorter, a fuel of
+   length + 1 is enough - without exception, every line is non-empty, only spaces are skipped between two lines, and
+   the lines with the skipped spaces, in order, are exactly the text *)
+Theorem C09_lines_cover_text st (t : text) (mw : Q) (mini : bool) :
+  greedy_guard_all st t mw mini = true ->
+  exists ls, split_lines (S (length t)) st t mw mini = Some ls /\
+             flatten ls = t /\ Forall line_ok ls /\ (1 <= length ls <= length (words_of t))%nat.
+Proof. exact (lines_cover_text st t mw mini). Qed.
+Print Assumptions C09_lines_cover_text.
+
+(* the word-level form of the same theorem *)
+Theorem C09_first_line_is_greedy_on_words st (ws : list text) (mw : Q) (ils mini : bool) :
+  words ws -> ws <> [] -> 0 < st_fs st -> text_wrap (st_ws st) = true -> Qle_bool two21 mw = false ->
+  fits_chars (st_fs st) mw (wlen ws 1) \/ can_break_inside st ils mini = false ->
+  let fs := st_fs st in let n := length ws in let collapse := space_collapse (st_ws st) in
+  exists k, (1 <= k <= n)%nat /\
+    ((2 <= k)%nat -> fits_chars fs (avail mw) (wlen ws k)) /\
+    ((k < n)%nat -> ~ fits_chars fs (avail mw) (wlen ws (k + 1))) /\
+    sfl_model st (join ws) (Some mw) ils mini =
+      Out (line_of collapse ws k) (Z.of_nat (length (line_of collapse ws k)))
+          (if (k =? n)%nat then None
+           else Some (Z.of_nat (length (line_of collapse ws k) + length (skipped_of collapse ws k))))
+          (inject_Z (Z.of_nat (length (line_of collapse ws k))) * fs).
+Proof. exact (sfl_words st ws mw ils mini). Qed.
+Print Assumptions C09_first_line_is_greedy_on_words.
 
 (* break_only_at_opportunities, white-space: nowrap | pre (or no width): for ALL texts of the alphabet the model of
    split_first_line returns the first paragraph as one line whatever the width, and resumes right after the
@@ -76,6 +130,34 @@ Theorem C09_break_all_greedy_refuted_hyphen_room :
     spec_mask st t (Some w) true false o <> 0%nat.
 Proof. exact break_all_reserves_hyphen_room. Qed.
 Print Assumptions C09_break_all_greedy_refuted_hyphen_room.
+
+(* ... and beyond Pango's 2^21 px limit no width is set at all (the guard's width clause) *)
+Theorem C09_greedy_refuted_beyond_pango_width_limit :
+  exists st t w, let o := sfl_model st t (Some w) true false in
+    o = Out (tx "a b"%string) 3 None 6291456 /\ w < 6291456 /\
+    sp_end (spec_first_line st t (Some w) true false) = 1%nat /\
+    spec_mask st t (Some w) true false o <> 0%nat.
+Proof. exact greedy_refuted_beyond_pango_width_limit. Qed.
+Print Assumptions C09_greedy_refuted_beyond_pango_width_limit.
+
+(* inputs neither under the guard nor in a refuted class: checked on instances (and per case by the correspondence
+   run), not proved for all inputs; proofs/C09_sfl.v says what is missing for each *)
+Theorem C09_greedy_with_newline_partial :
+  sfl_model (st_ws_ow WsPreLine OwNormal) (tx "aa bb/cc dd"%string) (Some 60) true false = Out (tx "aa bb"%string) 5 (Some 6%Z) 50 /\
+  sfl_model (st_ws_ow WsPreLine OwNormal) (tx "aa bb/cc dd"%string) (Some 40) true false = Out (tx "aa"%string) 2 (Some 3%Z) 20.
+Proof. exact greedy_with_newline_partial. Qed.
+Print Assumptions C09_greedy_with_newline_partial.
+Theorem C09_overflow_wrap_char_break_partial :
+  let o := sfl_model (st_ws_ow WsNormal OwAnywhere) (tx "aaaaaaa bb"%string) (Some 30) true false in
+  o = Out (tx "aaa"%string) 3 (Some 3%Z) 30 /\
+  spec_mask (st_ws_ow WsNormal OwAnywhere) (tx "aaaaaaa bb"%string) (Some 30) true false o = 0%nat.
+Proof. exact overflow_wrap_char_break_partial. Qed.
+Print Assumptions C09_overflow_wrap_char_break_partial.
+Theorem C09_edge_spaces_partial :
+  let o := sfl_model (st_ws_ow WsNormal OwNormal) (tx " aaa bb"%string) (Some 30) false false in
+  o = Out [] 0 (Some 1%Z) 0 /\ spec_mask (st_ws_ow WsNormal OwNormal) (tx " aaa bb"%string) (Some 30) false false o = 0%nat.
+Proof. exact edge_spaces_partial. Qed.
+Print Assumptions C09_edge_spaces_partial.
 
 (* ---- 2. offsets of a line: text_align / the rtl mirror of get_next_linebox / justify_line / add_word_spacing ---- *)
 
